@@ -278,11 +278,13 @@ def edits(spec, seed=0, max_depth=3, with_float=False, with_main=False):
             out.append(["addvar", None, vspec("optional", "optional", uid="Server-optional",
                                               paths={"packages": "opt/Packages", "repository": "opt"})])
         # a top-level variant named like the id of somebody's child (its sections must not be mixed up with the child's)
+        done = set()
         for v, depth, _ in nodes:
-            if depth == 2 and v["id"] not in top_ids and v["id"] not in top_uids and v["id"].isalnum():
+            # (one for a child kept in an [addon-...] section and one for a child kept in a [variant-...] section)
+            if depth == 2 and v["id"] not in top_ids and v["id"] not in top_uids and v["id"].isalnum() and (v["type"] == "addon") not in done:
+                done.add(v["type"] == "addon")
                 out.append(["addvar", None, vspec(v["id"], "variant", paths={"packages": "top-%s/Packages" % v["id"], "repository": "top-%s" % v["id"],
                                                                               "identity": "top-%s/id.pem" % v["id"]})])
-                break
         if "Server-optional" in top_uids and "Client-optional" not in top_uids:
             # a second top-level variant with the SAME id: only their UIDs tell them apart
             out.append(["addvar", None, vspec("optional", "optional", uid="Client-optional",
